@@ -408,7 +408,7 @@ fn cli_cases(args: &Args) -> i32 {
     while made < n && i < n * 20 {
         let run_seed = rng::derive_n(seed, "cli", i);
         i += 1;
-        if let Some((text, lines)) = engines::isolation::cli_case(run_seed, &ctx.names) {
+        if let Some((text, lines)) = engines::isolation::cli_case(run_seed, &ctx.names, &args.str("bin-path", "pushr")) {
             println!("{}", serde_json::to_string(&json!({"program": text, "expect": lines})).unwrap());
             made += 1;
         }
